@@ -149,7 +149,26 @@ def texts_for_country(country: str, tier: str):
         nv = c05.natvalid_base(country)
         if nv:
             out.insert(1, bases.iban_text(country, nv))
+    # texts that carry an invisible mark at an edge (all of them are rejected - in every spacing)
+    out += ["\ufeff" + v, v + "\u200e", "\u202a" + v + "\u202c"]
     return list(dict.fromkeys(out))
+
+
+def fragment_problems(text: str):
+    """Every prefix of a text as an unvalidated object: compact and formatted forms are defined for
+    every object (groups of four separated by single blanks, nothing in front or behind)."""
+    probs = []
+    for n in range(0, len(text) + 1):
+        t = text[:n]
+        k, o = lib.outcome(lib.IBAN, t + " ", allow_invalid=True)
+        if k != "ok":
+            probs.append(("iban:unvalidated-fragment-cannot-be-built", t, (k, o)))
+            continue
+        kf, f = lib.outcome(lambda: o.formatted)
+        if (kf, f) != ("ok", ri.formatted(t)):
+            probs.append(("iban:formatted-of-a-fragment-wrong", ri.formatted(t), (kf, f)))
+            break
+    return probs
 
 
 def bban_problems(country: str, body: str):
@@ -227,6 +246,11 @@ def shard(args):
             for sig, exp, obs in bban_problems(key, body):
                 part.violation(sig, {"kind": "c10bban", "country": key, "bban": body}, exp, obs)
     texts = texts_for_country(key, tier) if kind == "iban" else [key]
+    if kind == "iban":
+        part["evals"] += len(texts[0]) + 1
+        part.seen.add(hash(("fragments", texts[0])))
+        for sig, exp, obs in fragment_problems(texts[0]):
+            part.violation(sig, {"kind": "c10frag", "text": texts[0]}, exp, obs)
     for ti, canonical in enumerate(texts):
         gens = [case_variants(canonical)]
         if ti < 3 or tier == "thorough":
@@ -247,6 +271,9 @@ def shard(args):
 
 
 def replay(case: dict) -> dict:
+    if case.get("kind") == "c10frag":
+        probs = fragment_problems(case["text"])
+        return {"ok": not probs, "observed": [(p[0], p[2]) for p in probs]}
     if case.get("kind") == "c10comp":
         probs = component_problems(case["country"], case["bban"])
         return {"ok": not probs, "observed": [(p[0], p[2]) for p in probs]}
